@@ -341,7 +341,50 @@ fn make_stream(kind: &str, n: usize) -> Option<Arc<dyn Obj>> {
     }
 }
 
+/// a Multi channel with `NL` listeners (stream ids 0..NL-1); listeners take events through ChannelConsumer::consume(id)
+macro_rules! multi_obj {
+    ($name:ident, $chan:ident) => {
+        struct $name<const N: usize, const MS: usize> { chan: Arc<reactive_mutiny::prelude::advanced::$chan<u32, N, MS>> }
+        impl<const N: usize, const MS: usize> $name<N, MS> {
+            fn new(nl: usize) -> Self {
+                use reactive_mutiny::prelude::*;
+                let chan: Arc<reactive_mutiny::prelude::advanced::$chan<u32, N, MS>> = ChannelCommon::new("c");
+                for i in 0..nl { let (st, id) = chan.create_stream_for_new_events(); assert_eq!(id as usize, i); std::mem::forget(st); }
+                Self { chan }
+            }
+        }
+        impl<const N: usize, const MS: usize> Obj for $name<N, MS> {
+            fn op(&self, name: &str, arg: u64, _prev: &[u64]) -> (u64, String) {
+                use reactive_mutiny::prelude::*;
+                match name {
+                    "send" => { let ok = self.chan.send(arg as u32).is_ok(); (ok as u64, format!("ok {}", ok)) }
+                    "recv" | "drain" => show_opt(self.chan.consume(arg as u32).map(|a| *a)),
+                    _ => panic!("unknown op {}", name),
+                }
+            }
+        }
+    };
+}
+multi_obj!(MultiArcAtomic, ChannelMultiArcAtomic);
+multi_obj!(MultiArcFullSync, ChannelMultiArcFullSync);
+
+fn make_multi(kind: &str, n: usize) -> Option<Arc<dyn Obj>> {
+    let mut parts = kind.split(':');
+    let head = parts.next().unwrap();
+    let ms: usize = parts.next().map(|x| x.parse().unwrap()).unwrap_or(2);
+    let nl: usize = parts.next().map(|x| x.parse().unwrap()).unwrap_or(1);
+    macro_rules! inst { ($t:ident) => { match (n, ms) {
+        (2, 2) => Arc::new($t::<2, 2>::new(nl)) as Arc<dyn Obj>, (4, 2) => Arc::new($t::<4, 2>::new(nl)), (4, 4) => Arc::new($t::<4, 4>::new(nl)),
+        _ => panic!("unsupported (N, MAX_STREAMS) = ({}, {})", n, ms) } } }
+    match head {
+        "MultiArcAtomic" => Some(inst!(MultiArcAtomic)),
+        "MultiArcFullSync" => Some(inst!(MultiArcFullSync)),
+        _ => None,
+    }
+}
+
 fn make(kind: &str, n: usize) -> Arc<dyn Obj> {
+    if kind.starts_with("Multi") { return make_multi(kind, n).unwrap_or_else(|| panic!("unknown object kind {}", kind)); }
     if kind.starts_with("Stream") { return make_stream(kind, n).unwrap_or_else(|| panic!("unknown object kind {}", kind)); }
     macro_rules! pick { ($t:ident, $e:expr) => { match n { 2 => Arc::new($t::<2>($e)) as Arc<dyn Obj>, 4 => Arc::new($t::<4>($e)), 8 => Arc::new($t::<8>($e)), _ => panic!("N") } } }
     match kind {
